@@ -457,7 +457,96 @@ def c11(pid, tier, seed, workdir):
     return cov, TRUSTED, []
 
 
+def scan_interior_mutability():
+    """Syntactic scan of /repo/src for constructs that would invalidate the model's assumption that
+    published states are only read (plain loads) - recorded in the evidence, never a violation."""
+    import re
+    import vcheck
+    pat = re.compile(r"\b(Cell|RefCell|UnsafeCell|Mutex|RwLock|Atomic[A-Z]\w*|OnceCell|OnceLock|Lazy|static\s+mut|thread_local|Rc)\b|\bunsafe\b")
+    hits = []
+    srcdir = os.path.join(vcheck.REPO, "src")
+    for fn in sorted(os.listdir(srcdir)):
+        if not fn.endswith(".rs"):
+            continue
+        with open(os.path.join(srcdir, fn), encoding="utf-8", errors="replace") as f:
+            for k, line in enumerate(f, 1):
+                code = line.split("//")[0]
+                if pat.search(code):
+                    hits.append("%s:%d: %s" % (fn, k, line.strip()[:120]))
+    return hits
+
+
+def c18(pid, tier, seed, workdir):
+    import vcheck
+    from vcheck import sh, cargo_env, REPLAYS
+    bindir = build_harness("release")   # the main harness does not require Send/Sync
+    # (i) compile probe: a client crate that requires Send + Sync of the public types
+    crate = os.path.join(vcheck.VERIF, "autotraits")
+    rc, out = sh(["cargo", "build", "--offline", "--release"], 1200, env=cargo_env(), cwd=crate)
+    if rc != 0:
+        if ("cannot be sent between threads safely" in out or "cannot be shared between threads safely" in out
+                or ("E0277" in out and ("Send" in out or "Sync" in out))):
+            os.makedirs(REPLAYS, exist_ok=True)
+            dst = os.path.join(REPLAYS, "%s-%s-compile.txt" % (pid, seed))
+            with open(dst, "w") as f:
+                f.write(out)
+            raise Violation(pid, dst, "a client crate requiring Send + Sync of the engine's public types no longer compiles")
+        raise ToolError("autotraits crate failed to build for a reason other than Send/Sync:\n" + out[-3000:])
+    log("[compile-probe] Send + Sync client crate builds")
+    tbin = os.path.join(crate, "target", "release")
+    # (ii) all interleavings of the model
+    mcs = [expect_mc_ok(tlc_mc("SharedExpand.tla", "mc/MC_shared.cfg", workers=4, timeout=600, name="shared2x2")),
+           expect_mc_ok(tlc_mc("SharedExpand.tla", "mc/MC_shared3.cfg", workers=4, timeout=600, name="shared3x1"))]
+    hits = scan_interior_mutability()
+    # (iii) concurrent = sequential on the real code
+    nshards, rounds = (8, 40) if tier == "quick" else (28, 300)
+    os.makedirs(workdir, exist_ok=True)
+    paths = []
+    for k in range(nshards):
+        out_k = os.path.join(workdir, "threads_%02d.ndjson" % k)
+        rc, o = sh([os.path.join(tbin, "threads"), str(seed * 100 + k), str(rounds), out_k], 1800, env={"VERIF_REPO": vcheck.REPO})
+        if rc != 0:
+            # an abort of the whole process while threads expand a shared state is data
+            os.makedirs(REPLAYS, exist_ok=True)
+            dst = os.path.join(REPLAYS, "%s-%s-abort%02d.txt" % (pid, seed, k))
+            with open(dst, "w") as f:
+                f.write("threads %d %d aborted rc=%s\n%s" % (seed * 100 + k, rounds, rc, o[-3000:]))
+            raise Violation(pid, dst, "process aborted while 16 threads expanded a shared state (rc=%s)" % rc)
+        paths.append(out_k)
+    results = []
+    with cf.ThreadPoolExecutor(max_workers=14) as ex:
+        for r in ex.map(lambda p: validate_trace(p, pid), paths):
+            results.append(r)
+    for k, r in enumerate(results):
+        if not r["accepted"]:
+            replay = extract_replay(pid, r["path"], r["rejected_at"], seed, "%02d" % k)
+            raise Violation(pid, replay, "; ".join("%s line %s: %s" % f for f in r["fails"]) or "unmatched event")
+    tdig = sum((r["counts"] + [0] * 24)[19] for r in results)
+    reobs = sum((r["counts"] + [0] * 24)[20] for r in results)
+    log("[threads] %d shards, %d concurrent expansions compared, %d shared parents re-observed" % (len(paths), tdig, reobs))
+    with open(paths[0], encoding="utf-8") as f:
+        samples = [json.loads(l) for l in f if '"ev":"tdig"' in l][:3]
+    cov = {
+        "states": sum(m["distinct"] for m in mcs), "transitions": sum(m["generated"] for m in mcs),
+        "traces_validated_against_impl": len(paths),
+        "evaluations": tdig, "distinct_nontrivial": reobs * 16,
+        "rule": "S: PlusCal model SharedExpand.tla, every interleaving of the atomic steps (field loads, Arc clone fetch-add, node allocation, publish, iterative drop) for "
+                "2 processes x 2 expansions and 3 processes x 1 expansion: published states immutable, no use after free, children = sequential function, refcounts exact. "
+                "Code: compile probe (client crate requiring Send + Sync of 13 public types), and %d rounds in which one mid-game state is shared by reference and by Arc "
+                "between 16 OS threads that each expand it 3 times in random order with clone/drop churn; the digest of the complete observation of every child must equal "
+                "the single-threaded one and the parent's observation must be unchanged after the join. Schedules on the real code are sampled, not enumerated. "
+                "distinct_nontrivial = shared parents x 16 threads" % reobs,
+        "samples": samples,
+        "interior_mutability_scan": hits or ["no Cell/RefCell/Mutex/Atomic/unsafe/static mut/Rc/thread_local in /repo/src: for safe Rust without interior mutability, "
+                                            "shared & access is data-race free, so the model's atomic-load abstraction of field reads is sound"],
+        "model_to_code_transfer_assumption_established": not hits,
+        "exhaustive": False,
+    }
+    return cov, TRUSTED[:3] + ["thread schedules on the real code are sampled (16 threads, barrier start, random yields)"], []
+
+
 PROPS = {}
+PROPS["C18"] = c18
 PROPS["C11"] = c11
 PROPS["C20"] = c20
 PROPS["C16"] = c16
